@@ -5,6 +5,7 @@ log outside the recorded tree and then exits 0 / exits 1 / sleeps past the time
 limit. Every way an earlier stage can fail is injected at the root or inside a
 sublayout. Oracle: the log, judged per layout node from generator ground truth."""
 import datetime
+import os
 
 from harness import core, scen, vcommon, world as W
 
@@ -183,6 +184,10 @@ def one_case(rng, res, kind="draw", prefer_sub=None):
         apply_hooks(scn, ch, hooks, rng)
         any_insp = any(n.inspections for n, _p in scen.walk(ch))
         i, m, _ = vcommon.run_case(scn, desc, res, any_insp)
+        late = os.path.join(root, "insp.log.late")
+        if scn.meta["inspect_timeout"] == 5 and os.path.exists(late):
+            vcommon.oracle_fail(res, scn, desc, "an inspection command that exceeds the time limit was not stopped: it ran to its end (%s)"
+                                % open(late).read().split(), i)
         res.count("fail_%s" % desc["fail"]); res.count("loglen_%d" % len(i.get("log") or []))
         if i.get("load") != "ok":
             return
